@@ -111,6 +111,8 @@ def find_powershell_strings(data: bytes) -> list[Node]:
                 else:
                     # In a single quoted string, find the end quote
                     end = data.find(b"'", start)
+                if end < 0:
+                    end = len(data)  # unterminated string or loop: runs to the end of the data
                 powershell = data[start:end]
             else:
                 # No recognizable context, assume rest of file is all powershell
@@ -119,7 +121,10 @@ def find_powershell_strings(data: bytes) -> list[Node]:
         deobfuscated, obfuscation = deobfuscate_cmd(powershell)
         cmd_node = Node("shell.cmd", deobfuscated, obfuscation, start, end) if obfuscation else None
         if enc:
-            pwsh_invocation, encoded = deobfuscated.rsplit(maxsplit=1)
+            split = deobfuscated.rsplit(maxsplit=1)
+            if len(split) != 2:
+                continue  # de-escaping removed the separator between the switch and its argument
+            pwsh_invocation, encoded = split
             encoded = encoded.strip(b"'\"")
             if len(encoded) % 4 or b"^" in encoded:
                 continue  # invalid base64
